@@ -109,7 +109,15 @@ pub fn main(args: &[String]) {
                 let cands: Vec<usize> = b["cands"].as_array().unwrap().iter().map(|x| x.as_u64().unwrap() as usize).collect();
                 let mut cfg = ArchiveWriterConfig::new();
                 cfg.set_layers(if bi % 2 == 0 { Layers::ENCRYPT } else { Layers::DEFAULT });
-                cfg.add_public_keys(&recips.iter().map(|i| keys[*i].1).collect::<Vec<_>>());
+                // (HISTORY of the builder: the recipients are given in one call, or one call per recipient)
+                let pubs = recips.iter().map(|i| keys[*i].1).collect::<Vec<_>>();
+                if bi % 3 == 1 {
+                    for p in &pubs {
+                        cfg.add_public_keys(std::slice::from_ref(p));
+                    }
+                } else {
+                    cfg.add_public_keys(&pubs);
+                }
                 let sink = SharedSink::new();
                 let mut w = ArchiveWriter::from_config(sink.clone(), cfg).expect("create");
                 w.add_file("f", 6, &b"secret"[..]).unwrap();
